@@ -280,11 +280,12 @@ def successors(G, N, allow):
                 if len(cur) < MAX_LIST:
                     choices = (["new"] if room >= 1 else []) + [("ref", r) for r in compatible(G, base)]
                     for c in choices:
-                        H = clone()
-                        r = add_default_node(H, base) if c == "new" else c[1]
-                        H["nodes"][l]["args"][name] = list(cur) + [{"ref": r}]
-                        if len(H["nodes"]) <= N and not creates_task_cycle(H):
-                            out.append(H)
+                        for front in ((False, True) if cur else (False,)):
+                            H = clone()
+                            r = add_default_node(H, base) if c == "new" else c[1]
+                            H["nodes"][l]["args"][name] = ([{"ref": r}] + list(cur)) if front else (list(cur) + [{"ref": r}])
+                            if len(H["nodes"]) <= N and not creates_task_cycle(H):
+                                out.append(H)
             elif kind.startswith("dict:cfg:"):
                 curd = (cur or {"dict": {}})["dict"]
                 for k in DICT_KEYS:
@@ -325,10 +326,11 @@ def successors(G, N, allow):
         if "pre" in allow and l == G["root"] and SCHEMA[cls].get("task") and len(n.get("init", [])) < 2:
             choices = (["new"] if room >= 1 else []) + [("ref", r) for r in G["nodes"] if node_cls(G, r) == "init" and r not in n["init"]]
             for c in choices:
-                H = clone()
-                r = add_default_node(H, "init") if c == "new" else c[1]
-                H["nodes"][l]["init"] = list(n["init"]) + [r]
-                out.append(H)
+                for front in ((False, True) if n["init"] else (False,)):
+                    H = clone()
+                    r = add_default_node(H, "init") if c == "new" else c[1]
+                    H["nodes"][l]["init"] = ([r] + list(n["init"])) if front else (list(n["init"]) + [r])
+                    out.append(H)
     return out
 
 
